@@ -2,8 +2,8 @@
    Proved here: the order-theoretic core on structured treespecs, and the three-way equivalence
    flatten_up_to <-> is_prefix <-> prefix_errors (three separately written implementations, one of
    them Python), each tied to the code by the correspondence run (cmd 3, cmd 25). *)
-From OptreeModel Require Import Base Tree Flatten Unflatten Spec Accessor PrefixErr.
-From OptreeProofs Require Import SpecProofs OrderProofs PrefixOrder JoinOrder FlattenGood UpToProofs UpToPrefix UpToPartition UpToPaths UpToTop PrefixErrProofs PrefixAntisym.
+From OptreeModel Require Import Base Tree Flatten Unflatten Spec Accessor PrefixErr PrefixArr.
+From OptreeProofs Require Import SpecProofs OrderProofs PrefixOrder JoinOrder FlattenGood UpToProofs UpToPrefix UpToPartition UpToPaths UpToTop PrefixErrProofs PrefixAntisym PrefixArrProofs.
 From Coq Require Import Permutation.
 
 (* reflexive; comparing a treespec with itself never is a strict prefix *)
@@ -78,6 +78,37 @@ Theorem C07_is_prefix_antisym :
   st_prefix (stree_of a) (stree_of b) = (true, true).
 Proof. exact is_prefix_antisym. Qed.
 Print Assumptions C07_is_prefix_antisym.
+
+(* THE C++ LOOP ITSELF. PyTreeSpec::IsPrefix as richcomparison.cpp runs it — one pass over both node
+   arrays through reverse iterators, a leaf of this treespec skipping the other's whole subtree by its
+   num_nodes, the blocks of a dict node's children permuted inside the working copy when the keys come
+   in another order, the num_nodes short cuts — returns exactly the tree-level is_prefix of the model,
+   for the treespecs of any two flattened trees, strict or not. *)
+Theorem C07_cpp_is_prefix_loop_is_tree_prefix :
+  forall c1 o1 ls1 sp1 s1 c2 o2 ls2 sp2 s2 strict,
+    wf_obj o1 = true -> wf_obj o2 = true ->
+    flatten c1 o1 = Ok (ls1, sp1) -> flatten c2 o2 = Ok (ls2, sp2) ->
+    sspec_of sp1 = Some s1 -> sspec_of sp2 = Some s2 ->
+    arr_is_prefix sp1 sp2 strict = Ok (ss_is_prefix s1 s2 strict).
+Proof. exact arr_is_prefix_of_flattened. Qed.
+Print Assumptions C07_cpp_is_prefix_loop_is_tree_prefix.
+
+(* the same for every pair of well-formed treespecs (counters consistent, distinct dict keys, node
+   data fitting the kind), however obtained *)
+Theorem C07_cpp_is_prefix_loop_general :
+  forall a b strict,
+    wf_stree (stree_of a) = true -> good (stree_of a) = true -> dok (stree_of a) = true ->
+    wf_stree (stree_of b) = true -> good (stree_of b) = true -> dok (stree_of b) = true ->
+    arr_is_prefix (spec_of a) (spec_of b) strict = Ok (ss_is_prefix a b strict).
+Proof. exact arr_is_prefix_spec. Qed.
+Print Assumptions C07_cpp_is_prefix_loop_general.
+
+(* a prefix never has more nodes than what it is a prefix of (the loop's two size short cuts are sound) *)
+Theorem C07_prefix_has_fewer_nodes :
+  forall a b, wf_stree a = true -> wf_stree b = true -> good a = true -> good b = true ->
+  fst (st_prefix a b) = true -> (st_nodes a <= st_nodes b)%nat.
+Proof. exact prefix_nodes_le. Qed.
+Print Assumptions C07_prefix_has_fewer_nodes.
 
 (* the side conditions of C07_prefix_refl hold for everything flatten produces *)
 Theorem C07_flatten_gives_good_treespecs :
@@ -220,5 +251,6 @@ Example C07_example :
     flatten c pre = Ok (l1, a) /\ flatten c full = Ok (l2, b) /\
     sspec_of a = Some sa /\ sspec_of b = Some sb /\
     ss_is_prefix sa sb false = true /\ ss_is_prefix sa sb true = true /\ ss_is_prefix sb sa false = false /\
+    arr_is_prefix a b false = Ok true /\ arr_is_prefix a b true = Ok true /\ arr_is_prefix b a false = Ok false /\
     ss_flatten_up_to [] sa full = Ok [Leaf 2; Node HTuple [Leaf 1; Leaf 2]; Leaf 3].
 Proof. vm_compute. do 6 eexists. repeat split. Qed.
